@@ -65,5 +65,9 @@ func TestDebugReplaySKeep(t *testing.T) {
 			fmt.Printf("==== %s\n%s\n", e.Name(), tailStr(string(b), 2500))
 		}
 	}
+	if os.Getenv("DBG_NODESTROY") != "" {
+		fmt.Println("BASE", x.St.Base)
+		return
+	}
 	x.Destroy()
 }
